@@ -10,6 +10,7 @@
 -/
 import Gozod.Model.Store
 import Gozod.Model.Graph
+import Gozod.Model.Owned
 namespace Gozod.Drv.C15
 open Gozod.Store
 
@@ -117,6 +118,168 @@ def specHist (steps : List String) : String :=
 def splitBar (ts : List String) : List String × List String :=
   (ts.takeWhile (· != "|"), (ts.dropWhile (· != "|")).drop 1)
 
+/-! ### class `own`: schemas that own cells (`Gozod.Model.Owned`)
+
+    c15 own <m> <steps> | T <ids of string scalars> | T1 ; T2 ; … | V1 ; V2 ; …
+        T ::= any | str | lit k V^k | dflt V T | obj <s|l|x> k (key T)^k | slice T | rec T | union T T
+        m = number of cells the schemas hold (labels 1..m: the schema-owned region); steps: P<j>.<i> = Parse with schema j of
+        a fresh copy of input i, M<j> = deep in-place mutation of the j-th result
+        → "<same|CHANGED per repeated (j,i)>|<fresh|ALIASED>|<schema-same|schema-written>|<a<hash>|r per first (j,i)>"
+-/
+
+abbrev SRes := Option (GSchema × List String × GHeap)
+
+def parseVs (k : Nat) (ts : List String) (h : GHeap) : Option (List GVal × List String × GHeap) :=
+  match k with
+  | 0 => some ([], ts, h)
+  | k + 1 =>
+    match parseV 64 ts h with
+    | some (v, ts', h') =>
+      match parseVs k ts' h' with
+      | some (vs, ts'', h'') => some (v :: vs, ts'', h'')
+      | none => none
+    | none => none
+
+def parseFields (ps : List String → GHeap → SRes) :
+    Nat → List String → GHeap → Option (List (Nat × GSchema) × List String × GHeap)
+  | 0, ts, h => some ([], ts, h)
+  | k + 1, key :: ts, h =>
+    match ps ts h with
+    | some (s, ts', h') =>
+      match parseFields ps k ts' h' with
+      | some (fs, ts'', h'') => some ((key.toNat!, s) :: fs, ts'', h'')
+      | none => none
+    | none => none
+  | _ + 1, [], _ => none
+
+def lookupKid (fs : List (Nat × GSchema)) (k : Nat) : GSchema :=
+  match fs.find? (fun p => p.1 == k) with
+  | some p => p.2
+  | none => .any
+
+def parseSch (strs : List Nat) : Nat → List String → GHeap → SRes
+  | 0, _, _ => none
+  | _ + 1, "any" :: rest, h => some (.any, rest, h)
+  | _ + 1, "str" :: rest, h => some (.str strs, rest, h)
+  | _ + 1, "lit" :: k :: rest, h =>
+    match parseVs k.toNat! rest h with
+    | some (ms, rest', h') => some (.lit false ms, rest', h')
+    | none => none
+  | f + 1, "dflt" :: rest, h =>
+    match parseV 64 rest h with
+    | some (d, rest', h') =>
+      match parseSch strs f rest' h' with
+      | some (t, rest'', h'') => some (.dflt d t, rest'', h'')
+      | none => none
+    | none => none
+  | f + 1, "obj" :: mode :: k :: rest, h =>
+    match parseFields (parseSch strs f) k.toNat! rest h with
+    | some (fs, rest', h') =>
+      some (.obj (if mode == "l" then .loose else if mode == "x" then .strict else .strip) (fs.map (·.1)) (lookupKid fs), rest', h')
+    | none => none
+  | f + 1, "slice" :: rest, h => (parseSch strs f rest h).map (fun r => (.slice r.1, r.2))
+  | f + 1, "rec" :: rest, h => (parseSch strs f rest h).map (fun r => (.record r.1, r.2))
+  | f + 1, "union" :: rest, h =>
+    match parseSch strs f rest h with
+    | some (a, rest', h') =>
+      match parseSch strs f rest' h' with
+      | some (b, rest'', h'') => some (.union a b, rest'', h'')
+      | none => none
+    | none => none
+  | _ + 1, _, _ => none
+
+/-- split a token list at every occurrence of `sep` -/
+def splitAt (sep : String) (ts : List String) : List (List String) :=
+  let r := ts.foldl (fun (acc : List (List String) × List String) t =>
+    if t == sep then (acc.1 ++ [acc.2], []) else (acc.1, acc.2 ++ [t])) ([], [])
+  r.1 ++ [r.2]
+
+def parseSchemas (strs : List Nat) (parts : List (List String)) (h : GHeap) : Option (List GSchema × GHeap) :=
+  parts.foldl (fun acc part =>
+    match acc with
+    | none => none
+    | some (ss, h) =>
+      match parseSch strs 32 part h with
+      | some (s, [], h') => some (ss ++ [s], h')
+      | _ => none) (some ([], h))
+
+def parseInputs (parts : List (List String)) (h : GHeap) : Option (List GVal × GHeap) :=
+  parts.foldl (fun acc part =>
+    match acc with
+    | none => none
+    | some (vs, h) =>
+      match parseV 64 part h with
+      | some (v, [], h') => some (vs ++ [v], h')
+      | _ => none) (some ([], h))
+
+structure OSt where
+  σ : GStore
+  results : List (Option GVal)
+  verd : List String
+  firsts : List (String × String)
+  fresh : Bool
+
+def ownRun (m : Nat) (steps : List String) (fam : List GSchema) (inputs : List GVal) (σ0 : GStore) : String :=
+  let owned := List.range' 1 m
+  let lookOwned (σ : GStore) := owned.map (fun l => ser gdepth σ.heap (.ref l))
+  let before := lookOwned σ0
+  let st : OSt := steps.foldl (fun st s =>
+    if s.startsWith "P" then
+      match ((s.drop 1).copy).splitOn "." with
+      | [js, is] =>
+        match fam[js.toNat!]?, inputs[is.toNat!]? with
+        | some sch, some inp =>
+          let c := copy true gdepth st.σ inp            -- the caller builds an equal input out of new cells
+          let r := parseS sch c.1 c.2
+          let key : String := (s.drop 1).copy
+          match r.2 with
+          | some v =>
+            let tok := s!"a{serHash (ser gdepth r.1.heap v)}"
+            let cells := reach gdepth r.1.heap v
+            let fr := disjoint cells owned &&
+              st.results.all (fun o => match o with | some o => disjoint cells (reach gdepth r.1.heap o) | none => true)
+            match st.firsts.find? (fun p => p.1 == key) with
+            | some p => { st with σ := r.1, results := st.results ++ [some v], fresh := st.fresh && fr,
+                                  verd := st.verd ++ [if p.2 == tok then "same" else "CHANGED"] }
+            | none => { st with σ := r.1, results := st.results ++ [some v], fresh := st.fresh && fr,
+                                firsts := st.firsts ++ [(key, tok)] }
+          | none =>
+            match st.firsts.find? (fun p => p.1 == key) with
+            | some p => { st with σ := r.1, results := st.results ++ [none], verd := st.verd ++ [if p.2 == "r" then "same" else "CHANGED"] }
+            | none => { st with σ := r.1, results := st.results ++ [none], firsts := st.firsts ++ [(key, "r")] }
+        | _, _ => st
+      | _ => st
+    else
+      match (s.drop 1).toNat? with
+      | some j => match st.results[j]? with
+        | some (some v) => { st with σ := mutateAll st.σ v }
+        | _ => st
+      | none => st) { σ := σ0, results := [], verd := [], firsts := [], fresh := true }
+  let same := lookOwned st.σ == before
+  s!"{",".intercalate st.verd}|{if st.fresh then "fresh" else "ALIASED"}|{if same then "schema-same" else "schema-written"}|{",".intercalate (st.firsts.map (·.2))}"
+
+def ownHandle (m : Nat) (rest : List String) : String :=
+  match splitAt "|" rest with
+  | [steps, tpart, schemas, inputs] =>
+    let strs := (tpart.drop 1).map String.toNat!
+    match parseSchemas strs (splitAt ";" schemas) (fun _ => none) with
+    | none => "bad-schema"
+    | some (fam, h) =>
+      match parseInputs (splitAt ";" inputs) h with
+      | none => "bad-input"
+      | some (ins, h') =>
+        let σ0 : GStore := { heap := h', next := countR rest + 1 }
+        ownRun m steps fam ins σ0
+  | _ => "bad-op"
+
+def specOwn (steps : List String) (model : String) : String :=
+  -- every repeated (schema, input) gives what it gave the first time, nothing is shared, the schemas are as they were;
+  -- the look of the first results is the model's
+  let ps := steps.filter (·.startsWith "P")
+  let distinct := ps.foldl (fun (acc : List String) p => if acc.contains p then acc else acc ++ [p]) []
+  let reps := ps.length - distinct.length
+  ",".intercalate (List.replicate reps "same") ++ "|fresh|schema-same|" ++ (model.splitOn "|").getLast!
+
 end graphs
 
 /-- chain of `d` nested nodes; returns the store and the root value -/
@@ -172,6 +335,10 @@ def handleWith (cfg : Cfg) : List String → String
     -- the spec: every later result looks like the first, nothing is shared; the look itself (hash) is the model's
     let hpart := (m.splitOn "|").getLast!
     s!"{m}\t{specHist steps}{hpart}"
+  | "own" :: m :: rest =>
+    let model := ownHandle m.toNat! rest
+    let steps := rest.takeWhile (· != "|")
+    s!"{model}\t{specOwn steps model}"
   | ["dflt", _kind, d] =>
     match d.toNat? with
     | some d => s!"{dfltRun cfg d}\tsame,same,same"
